@@ -619,6 +619,32 @@ fn c16_clause_plan_wrong_handle() {
     kani::cover!(true, "COVER:reach");
 }
 
+/// A WHERE binds a handle for ITS OWN clause only: `ARCHIVE ?x WHERE { ?x ASSERTION
+/// {} } ; ARCHIVE ?x` — the second clause's target is neither created by the plan
+/// nor bound by that clause's own WHERE, so the plan must be refused ("leaves a
+/// handle unbound"). Added after seed C16a (WHERE variables accumulating across
+/// clauses) slipped through.
+#[kani::proof]
+#[kani::unwind(12)]
+#[kani::stub(alloc::fmt::format, stub_format)]
+fn c16_clause_plan_where_scope_is_per_clause() {
+    stack_vec!(wh = [WhereClause::Assertion { variable: sv("x"), matcher: ObjectMatcher::new() }]);
+    stack_vec!(
+        cl = [
+            MutationClause::Archive(RemovalStatement {
+                target: ElementRef::Handle(sv("x")),
+                where_clauses: Some(wh),
+                limit: None,
+                expect_state: None,
+            }),
+            archive(ElementRef::Handle(sv("x")))
+        ]
+    );
+    let r = ManuallyDrop::new(validate_plan(&plan(cl)));
+    assert!(r.is_err(), "OBL:C16.clause.where_binding_is_scoped_to_its_clause");
+    kani::cover!(true, "COVER:reach");
+}
+
 /// Not everything is rejected by `validate_plan`: the shortest plan
 /// `CREATE CONCEPT ?h {}` is accepted (no obligation of C16 asks for acceptance;
 /// this is the vacuity guard of the plan-level rejections).
